@@ -23,18 +23,27 @@ A cancelled task body ends in the step in which it is cancelled (the harness bod
 -/
 namespace HailVerif.Gather
 
+/-- an exception a helper can raise: a task's / the body's exception `e`, or `asyncio.CancelledError` -/
+inductive Exn where
+  | code (e : Nat)
+  | cancelled
+  deriving DecidableEq, Repr
+
+/-- a value a partial function can RETURN that is easily confused with a failure: `None`, or an exception INSTANCE handed back
+as an ordinary value (`return SomeError(...)`, not `raise`) -/
+inductive Obj where
+  | none
+  | exn (x : Exn)
+  deriving DecidableEq, Repr
+
 /-- scripted outcome of a partial function -/
 inductive Outcome where
   | ret (v : Nat)
   | raise (e : Nat)
   /-- the body itself ends in `asyncio.CancelledError` (an inner timeout / cancel scope) -/
   | cancel
-  deriving DecidableEq, Repr
-
-/-- an exception a helper can raise: a task's / the body's exception `e`, or `asyncio.CancelledError` -/
-inductive Exn where
-  | code (e : Nat)
-  | cancelled
+  /-- the body RETURNS `None` or an exception instance as its value -/
+  | retObj (o : Obj)
   deriving DecidableEq, Repr
 
 /-- how a task body ended -/
@@ -42,6 +51,8 @@ inductive Res where
   | ok (v : Nat)
   | err (e : Nat)
   | cancelled
+  /-- returned `None` / an exception instance as a value: for `return_exceptions` the pair `(obj, None)`, NOT `(None, obj)` -/
+  | okObj (o : Obj)
   deriving DecidableEq, Repr
 
 inductive TSt where
@@ -126,12 +137,14 @@ def resOf : Outcome → Res
   | .ret v => .ok v
   | .raise e => .err e
   | .cancel => .cancelled
+  | .retObj o => .okObj o
 
 /-- what `asyncio.gather(*tasks)` sees when a task ends like this: a cancelled child counts as raising `CancelledError` -/
 def failureOf : Outcome → Option Exn
   | .ret _ => none
   | .raise e => some (.code e)
   | .cancel => some .cancelled
+  | .retObj _ => none               -- a returned object is a value, whatever its type
 
 /-- what the online pool sees: `run_and_cleanup` swallows `CancelledError` ("the task is considered complete") -/
 def poolFailureOf : Outcome → Option Exn
